@@ -2,6 +2,7 @@ package props
 
 import (
 	"fmt"
+	"strings"
 	"math/rand"
 
 	"github.com/protobom/protobom/pkg/sbom"
@@ -391,7 +392,9 @@ func c12History(c *core.C) {
 		if step[0] == 'A' || step[0] == 'R' {
 			kept := results[:0]
 			for _, res := range results {
-				if nl, ok := res.val.(*sbom.NodeList); ok && nl == a {
+				// the receiver was changed on purpose; the argument of an in-place Add is aliased by it from now on
+				// (Add appends the argument's node pointers - not a copy or a union/intersection result, so outside the statement)
+				if nl, ok := res.val.(*sbom.NodeList); ok && (nl == a || (strings.HasPrefix(step, "Add(") && nl == b)) {
 					pool = append(pool, nl)
 					continue
 				}
